@@ -175,6 +175,7 @@ structure StepSpec (s : Sys) (w : Bytes) (s' : Sys) (ob : Obs) : Prop where
   ia_conn : ob.inp.ia = (!s.m.connected && s'.m.connected)
   conn_mono : s.m.connected = true → s'.m.connected = true
   ann_conn : ob.announced.isSome = true → s.m.connected = true
+  rd_live : s.m.connected = true → s'.m.cur = none → (s.m.outPipe ++ w).take readMax = []
 
 theorem cycle_spec_pre (s : Sys) (w : Bytes) (h : Inv s) (hc : s.m.connected = false) :
     Inv (cycle s w).1 ∧ StepSpec s w (cycle s w).1 (cycle s w).2 := by
@@ -218,10 +219,11 @@ theorem both_of_conj {s : Sys} {w : Bytes} {s' : Sys} {ob : Obs}
           (ob.delivered = (if ob.inp.ia then [initByte] else []) ++ ob.announced.getD []) ∧
           (ob.inp.ia = (!s.m.connected && s'.m.connected)) ∧
           (s.m.connected = true → s'.m.connected = true) ∧
-          (ob.announced.isSome = true → s.m.connected = true))) :
+          (ob.announced.isSome = true → s.m.connected = true) ∧
+          (s.m.connected = true → s'.m.cur = none → (s.m.outPipe ++ w).take readMax = []))) :
     Inv s' ∧ StepSpec s w s' ob := by
-  obtain ⟨⟨p1, p2, p3, p4, p5, p6, p7, p8⟩, q1, q2, q3, q4, q5, q6, q7, q8, q9, q10, q11, q12, q13, q14⟩ := h
-  exact ⟨⟨p1, p2, p3, p4, p5, p6, p7, p8⟩, ⟨q1, q2, q3, q4, q5, q6, q7, q8, q9, q10, q11, q12, q13, q14⟩⟩
+  obtain ⟨⟨p1, p2, p3, p4, p5, p6, p7, p8⟩, q1, q2, q3, q4, q5, q6, q7, q8, q9, q10, q11, q12, q13, q14, q15⟩ := h
+  exact ⟨⟨p1, p2, p3, p4, p5, p6, p7, p8⟩, ⟨q1, q2, q3, q4, q5, q6, q7, q8, q9, q10, q11, q12, q13, q14, q15⟩⟩
 
 local macro "close_step" : tactic =>
   `(tactic| (apply both_of_conj <;> simp_all [unpack_pack] <;> (have := readMax_le_cap; omega)))
